@@ -293,6 +293,10 @@ def scatter_sites(repo, col, cl, R, RS):
                     isinstance(n.func.value, ast.Subscript) and isinstance(n.func.value.value, ast.Attribute) and \
                     n.func.value.value.attr == "at" and _named_dict(n.func.value.value.value) in PARAM_DICTS:
                 found += 1
+                # an override REPLACES the tabulated value: `.add` would add the trainable / data_set value to the one from .nodes
+                col.check(n.func.attr == "set", R, fi, f"{fi.name}: overrides replace the tabulated values `{unparse(n)[:50]}`",
+                          ".at[inds].set(...)", f"`{unparse(n)[:70]}` accumulates the override onto the value read from the tables instead "
+                          f"of replacing it", node=n)
                 arr_node = n.func.value.value.value
                 keyt = ex.term(arr_node.slice)
                 arr = T("sub", None, [T("param", "states"), keyt])
